@@ -248,6 +248,9 @@ pub fn next_solution<'a>(sn: Rc<RefCell<SolutionNode<'a>>>)
                     match &sn_ref.head_sn {
                         Some(head_sn) => {
                             let solution = next_solution(Rc::clone(&head_sn));
+                            #[cfg(suiron_verif)]
+                            crate::verif_hooks::emit(format!("{{\"e\":\"not\",\"ok\":{}}}",
+                                                             solution.is_none()));
                             match solution {
                                 Some(_) => return None,
                                 None => {
@@ -297,6 +300,13 @@ pub fn next_solution<'a>(sn: Rc<RefCell<SolutionNode<'a>>>)
 
                 let head = rule.get_head();
                 let solution = head.unify(&cmplx, &sn_ref.ss);
+
+                #[cfg(suiron_verif)]
+                crate::verif_hooks::emit(format!(
+                    "{{\"e\":\"{}\",\"key\":\"{}\",\"idx\":{},\"n\":{},\"base\":{},\"after\":{}}}",
+                    if solution.is_some() { "resolve" } else { "headfail" },
+                    crate::verif_hooks::esc(&pred_name), sn_ref.rule_index - 1,
+                    sn_ref.number_facts_rules, fallback_id, get_var_id()));
 
                 match solution {
                     None => { set_var_id(fallback_id); },  // Restore fallback ID.
